@@ -217,6 +217,9 @@ def run(tier, seed):
         for tree in skeletons(nmin, nmax, history=False, final=False):
             for scheme in ('asc', 'desc'):
                 tasks.append((tree, scheme, k, prios))
+    # short names made of each other's characters
+    for tree in skeletons(3, 4, history=False, final=False):
+        tasks.append((tree, 'overlap', 2, (0, 1)))
     # sparse variants: every other state (in pre-order) carries no probe, so that inner-first has to look
     # past intermediate states without any candidate transition
     for tree in skeletons(3, 5 if tier == 'quick' else 6, history=False, final=False):
